@@ -10,11 +10,12 @@ Definition nat_ents (e : list (Z * Q)) : list (nat * Q) := map (fun kv => (Z.to_
 
 Section Growth.
 Variables extra_cols extra_mat : nat.
+Variable fixed : bool.   (* which matrix_addrow (Store.Matrix): as found / repaired *)
 
 Fixpoint l2_addrows (s : lstore) (l : list rowspec) : res lstore :=
   match l with
   | [] => Ok s
-  | (_, sn, _, _, ent) :: r => bind (lib_addrow extra_cols extra_mat s (nat_ents ent) (coef_of_sense sn)) (fun s' => l2_addrows s' r)
+  | (_, sn, _, _, ent) :: r => bind (lib_addrow extra_cols extra_mat fixed s (nat_ents ent) (coef_of_sense sn)) (fun s' => l2_addrows s' r)
   end.
 Fixpoint l2_addcols (s : lstore) (l : list colspec) : res lstore :=
   match l with
@@ -32,8 +33,8 @@ Definition l2_step (p : prob) (s : lstore) (o : pop) : res lstore :=
   | NewCol _ _ _ _ => lib_addcol extra_cols extra_mat s []
   | AddCol _ _ _ _ ent => lib_addcol extra_cols extra_mat s (nat_ents ent)
   | AddCols l => l2_addcols s l
-  | NewRow _ sn _ => lib_addrow extra_cols extra_mat s [] (coef_of_sense sn)
-  | AddRow _ sn _ _ ent => lib_addrow extra_cols extra_mat s (nat_ents ent) (coef_of_sense sn)
+  | NewRow _ sn _ => lib_addrow extra_cols extra_mat fixed s [] (coef_of_sense sn)
+  | AddRow _ sn _ _ ent => lib_addrow extra_cols extra_mat fixed s (nat_ents ent) (coef_of_sense sn)
   | AddRows l => l2_addrows s l
   | DelRows _ | DelSetRows _ | DelNRows _ => match del_rows_of p o with [] => Ok s | ds => lib_delrows s ds end
   | DelCols _ | DelSetCols _ | DelNCols _ => match del_cols_of p o with [] => Ok s | ds => lib_delcols s ds end
@@ -53,6 +54,6 @@ Definition l2_copy (p : prob) : res lstore :=
           (map (fun r => (None, sense_ascii (sr_sense r), 0%Q)) (p_rows p)).
 End Growth.
 
-Definition l2_step_c := l2_step 100 1000.
-Definition l2_load_c := l2_load 100 1000.
-Definition l2_copy_c := l2_copy 100 1000.
+Definition l2_step_c (fixed : bool) := l2_step 100 1000 fixed.
+Definition l2_load_c (fixed : bool) := l2_load 100 1000 fixed.
+Definition l2_copy_c (fixed : bool) := l2_copy 100 1000 fixed.
